@@ -88,7 +88,7 @@ func returnsError(f *types.Func) bool {
 }
 
 // calleeMayFail: can this call yield a non-nil error in its last result?
-func (fa *failInfo) calleeMayFail(info *types.Info, call *ast.CallExpr) (bool, string) {
+func (fa *failInfo) calleeMayFail(fi *FuncInfo, info *types.Info, call *ast.CallExpr) (bool, string) {
 	f := calleeFunc(info, call)
 	if f == nil {
 		return true, "call through a function value"
@@ -96,10 +96,10 @@ func (fa *failInfo) calleeMayFail(info *types.Info, call *ast.CallExpr) (bool, s
 	if !returnsError(f) {
 		return false, ""
 	}
-	return fa.funcMayFail(f, info, call)
+	return fa.funcMayFail(fi, f, info, call)
 }
 
-func (fa *failInfo) funcMayFail(f *types.Func, info *types.Info, call *ast.CallExpr) (bool, string) {
+func (fa *failInfo) funcMayFail(cur *FuncInfo, f *types.Func, info *types.Info, call *ast.CallExpr) (bool, string) {
 	if fi := fa.w.ByObj[f]; fi != nil {
 		switch fa.state[f] {
 		case 3:
@@ -111,12 +111,11 @@ func (fa *failInfo) funcMayFail(f *types.Func, info *types.Info, call *ast.CallE
 	sig := f.Type().(*types.Signature)
 	if sig.Recv() != nil {
 		if it, ok := sig.Recv().Type().Underlying().(*types.Interface); ok {
-			// interface method: every module implementation
+			// interface method: the module implementations the receiver expression can hold
+			_ = it
 			var hit []string
-			for _, m := range fa.impls[f.Name()] {
-				if !types.Implements(types.NewPointer(m.Recv), it) && !types.Implements(m.Recv, it) {
-					continue
-				}
+			ms, _ := fa.w.typeFlow().implementations(cur, call, f, fa.impls[f.Name()])
+			for _, m := range ms {
 				if fa.state[m.Obj] == 3 {
 					hit = append(hit, m.Key)
 				}
@@ -223,14 +222,14 @@ func (fa *failInfo) compute(fi *FuncInfo) (bool, string) {
 			return
 		}
 		if fromCall != nil {
-			if mf, why := fa.calleeMayFail(info, fromCall); mf {
+			if mf, why := fa.calleeMayFail(fi, info, fromCall); mf {
 				if varFail[obj] == "" {
 					varFail[obj] = why
 				}
 			}
 			return
 		}
-		if why := fa.exprMayBeError(info, rhs, varFail); why != "" {
+		if why := fa.exprMayBeError(fi, info, rhs, varFail); why != "" {
 			if varFail[obj] == "" {
 				varFail[obj] = why
 			}
@@ -305,12 +304,12 @@ func (fa *failInfo) compute(fi *FuncInfo) (bool, string) {
 						res, why = true, varFail[named]
 					}
 				case len(x.Results) == nres:
-					if y := fa.exprMayBeError(info, x.Results[nres-1], varFail); y != "" {
+					if y := fa.exprMayBeError(fi, info, x.Results[nres-1], varFail); y != "" {
 						res, why = true, y
 					}
 				case len(x.Results) == 1:
 					if call, ok := unparen(x.Results[0]).(*ast.CallExpr); ok {
-						if mf, y := fa.calleeMayFail(info, call); mf {
+						if mf, y := fa.calleeMayFail(fi, info, call); mf {
 							res, why = true, y
 						}
 					} else {
@@ -388,7 +387,7 @@ func (fa *failInfo) deadCond(info *types.Info, cond ast.Expr, varFail map[types.
 }
 
 // exprMayBeError: "" when e is certainly a nil error.
-func (fa *failInfo) exprMayBeError(info *types.Info, e ast.Expr, varFail map[types.Object]string) string {
+func (fa *failInfo) exprMayBeError(fi *FuncInfo, info *types.Info, e ast.Expr, varFail map[types.Object]string) string {
 	e = unparen(e)
 	if tv, ok := info.Types[e]; ok && tv.IsNil() {
 		return ""
@@ -408,7 +407,7 @@ func (fa *failInfo) exprMayBeError(info *types.Info, e ast.Expr, varFail map[typ
 		}
 		return "error value " + x.Name
 	case *ast.CallExpr:
-		if mf, why := fa.calleeMayFail(info, x); mf {
+		if mf, why := fa.calleeMayFail(fi, info, x); mf {
 			return why
 		}
 		if f := calleeFunc(info, x); f != nil && returnsError(f) {
@@ -757,7 +756,7 @@ func (w *World) errSites(sel func(f *types.Func) bool) []*errSite {
 			if f == nil || !returnsError(f) || !sel(f) {
 				return
 			}
-			mf, why := fa.calleeMayFail(info, call)
+			mf, why := fa.calleeMayFail(fi, info, call)
 			if !mf {
 				out = append(out, &errSite{Func: fi, Call: call, Pos: call.Pos(), Status: "infallible"})
 				return
